@@ -963,6 +963,22 @@ def check(ctx):
     ctx.assume('agreement on all inputs is differential by nature and not '
                'decided')
     tool = prog.func(SHELL + '.tool')
+    # evaluation and reporting moved into an object of a class of the
+    # checker's own module: the path rules follow the tool's locals, not the
+    # attributes of such an object
+    for c in walk_no_nested(tool.node):
+        q = prog.resolve(tool.module, c.func) if isinstance(
+            c, ast.Call) else None
+        k = prog.classes.get(q) if isinstance(q, str) else None
+        if k is not None and k.module is tool.module and any(
+                isinstance(x, ast.Call) and isinstance(x.func, ast.Name)
+                and x.func.id == 'print'
+                for m in k.methods.values() for x in ast.walk(m.node)):
+            raise AnalysisError(
+                'the checker evaluates and reports through an object of its '
+                'class %s (state kept in attributes): the rules on verdict '
+                'polarity, iteration and argument roles read the locals of '
+                '%s only' % (q, tool.qual))
     check_tool_paths(ctx, tool)
     check_default(ctx, tool)
     check_duck(ctx)
